@@ -3,6 +3,7 @@
 package walk
 
 import (
+	"fmt"
 	"math/rand"
 	"sync"
 	"time"
@@ -138,7 +139,7 @@ func Run(c Config) *Result {
 				fork, _ := ctx.CacheContext()
 				fork = fork.WithEventManager(sdk.NewEventManager())
 				p2 := append(append([]*graph.Edge{}, path...), e)
-				next, fs, prune := c.Apply(w, fork, e, p2)
+				next, fs, prune := safeApply(c, w, fork, e, p2)
 				executed++
 				if len(fs) > 0 {
 					sh.add(fs)
@@ -198,7 +199,7 @@ func Run(c Config) *Result {
 						e := outs[rng.Intn(len(outs))]
 						path = append(path, e)
 						fork := ctx.WithEventManager(sdk.NewEventManager())
-						next, fs, prune := c.Apply(w, fork, e, path)
+						next, fs, prune := safeApply(c, w, fork, e, path)
 						steps++
 						if len(fs) > 0 {
 							sh.add(fs)
@@ -227,4 +228,16 @@ func Run(c Config) *Result {
 	}
 	res.WallS = time.Since(start).Seconds()
 	return res
+}
+
+// safeApply runs the binding's Apply; a panic that escapes it (a read of the real state that panics, e.g. a keeper getter
+// decoding foreign bytes) is a finding of the property under check ("*"), not a crash of the harness.
+func safeApply(c Config, w *Worker, ctx sdk.Context, e *graph.Edge, path []*graph.Edge) (next sdk.Context, fs []Finding, prune bool) {
+	defer func() {
+		if r := recover(); r != nil {
+			next, prune = ctx, true
+			fs = []Finding{{Prop: "*", Kind: "panic", Sig: "harness.observe.panic", Msg: fmt.Sprintf("executing or observing the step panicked outside the guarded calls: %v", r), Path: PathActs(path)}}
+		}
+	}()
+	return c.Apply(w, ctx, e, path)
 }
